@@ -29,10 +29,9 @@ ASSUMPTIONS = [
 TRUSTED = ["model Relic.Model.Xml / Relic.Model.EcdsaPack hand-written; tied to the Go code by differential execution on every run",
            "Spec.ExcC14N is a hand transcription of the W3C text (no second implementation available offline in python; JDK cross-check not wired in)",
            "RSA/ECDSA/SHA implementations of the Go standard library"]
-UNPROVED = ["canon_sensitive_full (the canonical form determines the walked tree: needs a full inverse of the serialisation; proved: the single-edit "
-            "statements canon_sensitive_text / _attr_value / _local_name / _child_swap (different qualified names) and injectivity of escaping)",
-            "canon_swap_sensitive_of for two children with merely different canonical forms (needs: two well-formed element serialisations "
-            "that commute as words are equal)",
+UNPROVED = ["canon_sensitive_full (no well-formedness hypothesis): false, witness canon_sensitive_full_false (two character-data nodes that a removed "
+            "comment separated); proved at full strength on well-formed trees: canon_sensitive (decidable Inj.wfNode on the walked trees), "
+            "canon_sensitive_of_input (Inj.wfIn + Inj.adjOK on the parsed documents, any ancestor context), canon_sensitive_child_swap_general",
             "canon_invariant_under_attr_perm without CtxOK (an ancestor declaring the prefix xmlns, forbidden by Namespaces in XML; believed true, "
             "the proof would have to track the relative position of that one pending declaration)",
             "enveloped-signature transform theorems (no model of the transform)"]
@@ -155,7 +154,7 @@ def predicate(op, il, mres, tag):
     if f[1] == "meta":
         want = "ok pass" if f[2].startswith("keep") else "ok fail"
         if il != want:
-            return ("Relic.Props.C19.canon_invariant_under_reserialisation_full" if want == "ok pass" else "Relic.Props.C19.canon_sensitive_full",
+            return ("Relic.Props.C19.canon_invariant_under_reserialisation_full" if want == "ok pass" else "Relic.Props.C19.canon_sensitive",
                     want, "sign -> %s -> verify (%s, %s, %s)" % (f[2], f[3], f[4], f[5]))
         return None
     if f[1] == "ident":
